@@ -1108,6 +1108,19 @@ func txDirected() [][]string {
 			"selb 1000000 1000 0 a:a0:0:1000000 a:b0:0:1000000 a:c0:0:1000000 a:d0:0:1000000",
 			"rm a101",
 			"sel 1000000 1000 0 a:a0:1:1000000 a:b0:0:1000000 a:c0:0:1000000 a:d0:0:1000000"},
+		// a late lower nonce, removed again, then a replacement for a nonce in the middle: the sender's list must still be in
+		// nonce order (an insertion shortcut that trusts "the last added element is the tail" goes wrong here) and the selection
+		// must be one run of nonces
+		{"begin txcache chunks=1 evict=0 nb=1000000 nbs=1000000 c=1000 cs=100 n=1",
+			"tx a106 a0 6 1 10 50 10 0 -", "tx a107 a0 7 1 10 50 10 0 -", "tx a105 a0 5 1 10 50 10 0 -", "tx a1b6 a0 6 2 10 50 20 0 -",
+			"tx a108 a0 8 1 10 50 10 0 -", "tx b101 b0 0 5 10 50 50 0 -",
+			"add a106", "add a107", "add a105", "add b101",
+			"sel 1000000 1000 0 a:a0:5:1000000 a:b0:0:1000000",
+			"rm a105", "add a1b6",
+			"sel 1000000 1000 0 a:a0:6:1000000 a:b0:0:1000000",
+			"selb 1000000 1000 0 a:a0:6:1000000 a:b0:0:1000000",
+			"add a108",
+			"sel 1000000 1000 0 a:a0:6:1000000 a:b0:0:1000000"},
 		// the same by bytes, several chunks, two senders cut
 		{"begin txcache chunks=16 evict=1 nb=400 nbs=1000000 c=1000 cs=100 n=2",
 			"tx a101 a0 0 1 10 50 10 0 -", "tx a102 a0 1 1 10 50 10 0 -", "tx a103 a0 2 1 10 50 10 0 -",
